@@ -40,6 +40,9 @@ func init() {
 }
 
 func c13MTU(r *fw.Rand) int {
+	if r.Chance(1, 150) {
+		return r.Pick(32767, 32768, 32769, 40000, 65534, 65535) // the MTU is a uint16: values with bit 15 set are ordinary
+	}
 	return r.Pick(2, 3, 4, 5, 6, 7, 8, 9, 10, 12, 16, 24, 32, 48, 127, 128, 129, 130, 131, 1200, 16385, r.Range(2, 48), r.Range(2, 48), r.Range(49, 2000))
 }
 
